@@ -34,6 +34,8 @@ type Client struct {
 
 	// Events holds every EVENT/1.0 message received, in order.
 	Events []*Message
+	// OnSend, when set, sees every request before encryption (capture by an observer).
+	OnSend func(b []byte)
 	// OnEvent, when set, is called for every EVENT as it is parsed.
 	OnEvent func(m *Message)
 	// EOF is set once the peer closed.
@@ -72,6 +74,9 @@ func (c *Client) SendRaw(b []byte) error {
 
 // Send writes a request, framed under the session keys once verified.
 func (c *Client) Send(b []byte) error {
+	if c.OnSend != nil {
+		c.OnSend(b)
+	}
 	if c.Enc {
 		b = FrameSeal(c.c2a, &c.sendCtr, b)
 	}
